@@ -668,6 +668,35 @@ def rule_G(ctx):
                 if tg.count(500) != 1 or old != list(range(n)) or any(after[i][1] > after[i + 1][1] for i in range(len(after) - 1)):
                     fail('insertObsInChronoOrder', 'order', 'inserting an observation without an index into a time-sorted track leaves it sorted, with every former observation kept in place order',
                          {'sorted track times': times, 'instant inserted': x, 'track afterwards (tag, time)': [(a[0], a[1]) for a in after]})
+    # concatenation of tracks whose feature tables differ (other order, other names): whatever name the result lists, reading it on
+    # an observation gives that observation's own value of that feature
+    def mk_named(times, names, first):
+        t = mk(times, first=first)
+        dk = [k for k in t.fields if 'analyticalFeaturesDico' in k][0]
+        t.fields[dk] = {nm: j for j, nm in enumerate(names)}
+        for o in t.fields['_Track__POINTS']:
+            o.features = [(nm, o.k) for nm in names]
+        return t
+    for n1, n2 in ((['f', 'g'], ['g', 'f']), (['f', 'g'], ['f', 'g']), (['f', 'g', 'h'], ['h', 'f', 'g']), (['f'], ['g']), (['f', 'g'], ['f']), (['f'], ['f', 'g'])):
+        src, other = mk_named([1, 2, 3], n1, 0), mk_named([4, 5], n2, 100)
+        ok, res = attempt('t1 + t2', '__add__', lambda: src.call('__add__', other))
+        if not ok:
+            fail('t1 + t2', 'fails', 'the operation does not fail', {'features of the operands': [n1, n2], 'exception': res})
+            continue
+        got = snap(res)
+        if got is None or [g[0] for g in got] != [0, 1, 2, 100, 101]:
+            fail('t1 + t2', 'selection', 'the result holds exactly the designated observations, in the original order', {'features of the operands': [n1, n2], 'result': None if got is None else [g[0] for g in got]})
+            continue
+        ok, names = attempt('t1 + t2', '__add__', lambda: res.call('getListAnalyticalFeatures'))
+        wrong = None
+        for nm in (names if ok and isinstance(names, list) else []):
+            for i, g in enumerate(got):
+                ok2, v = attempt('t1 + t2', '__add__', lambda: res.call('getObsAnalyticalFeature', nm, i))
+                if ok2 and v != (nm, g[0]) and wrong is None:
+                    wrong = {'feature read': nm, 'observation': g[0], 'value read (feature it belongs to, observation)': list(v) if isinstance(v, tuple) else repr(v)}
+        if wrong is not None:
+            fail('t1 + t2', 'own-values', 'each observation of the result carries its own feature values: a feature the result lists reads, on every observation, that observation\'s value of THAT feature',
+                 dict(wrong, **{'features of the left operand (column order)': n1, 'features of the right operand (column order)': n2, 'features listed by the result': names}))
     fT = ctx.prog.cls(TRACK)
     anchors = {'t > n': '__gt__', 't < n': '__lt__', 't % n': '__mod__', 't % pattern': '__mod__', 'extract': 'extract', 'extractSpanTime': 'extractSpanTime',
                'removeObsList': 'removeObsList', 'sort': 'sort', 't1 + t2': '__add__', 'insertObsInChronoOrder': 'insertObsInChronoOrder'}
@@ -681,8 +710,16 @@ def rule_G(ctx):
     ctx.extra['C04.G cases'] = sum(counts.values())
 
 
+def rule_O(ctx):
+    """C04.O the order of timestamps that sort(), chronological insertion and extractSpanTime rely on: the repository's ObsTime comparison
+    operators interpreted on every field-wise ordering of two instants (milliseconds included) and on the carry cases"""
+    from . import c03
+    c03.rule_C(ctx, rid='C04.O')
+
+
 RULES = [
     ('C04.G', rule_G, 'quick'),
+    ('C04.O', rule_O, 'quick'),
     ('C04.X', rule_X, 'quick'),
     ('C04.F', rule_F, 'quick'),
 ]
